@@ -908,7 +908,8 @@ Fixpoint agree (lang orig : string) (rewritten : list string) : Prop :=
   | v :: r => values lang v = values lang orig /\ agree lang orig r
   end.
 
-Ltac agree_tac := cbn [agree]; repeat split; vm_compute; reflexivity.
+Ltac conjs := repeat match goal with |- _ /\ _ => split end.
+Ltac agree_tac := cbn [agree]; conjs; vm_compute; reflexivity.
 
 (* blank-only lines, every length from 1 to 80; the slot is empty (and the whole text gives exactly one slot) *)
 Definition blank_only_upto (n : nat) : bool :=
@@ -953,7 +954,7 @@ Example pipeline_arith :
   agree "en" "8 / 2 - 1" ["8/2-1"; "8 /2 -1"; "8  /  2  -  1   "; "8 / 2 - 1 #- 1"] /\
   agree "en" "0x1F + 1" ["0x1F  +  1"; "0x1F+1"; " 0x1F + 1 # 0x10"] /\
   agree "en" "255 to hex" ["255 TO hex"; "255  To   hex"; "255 to hex # to hex"; "  255 to hex"].
-Proof. repeat split; agree_tac. Qed.
+Proof. conjs; agree_tac. Qed.
 
 Example pipeline_percent :
   agree "en" "10% of 50" ["10% OF 50"; "10%   Of  50"; "10% of 50 # 50%"; " 10% of 50 "] /\
@@ -962,7 +963,7 @@ Example pipeline_percent :
   agree "en" "50 + 10%" ["50  +  10%"; "50+10%"; "  50 + 10%  "; "50 + 10% # 1k"] /\
   agree "en" "10 is what % of 50" ["10 IS WHAT % OF 50"; "10 Is  What  %  oF 50"; "10 is what%of 50"; "10 is what % of 50 # of what"] /\
   agree "en" "5 is 10% of what" ["5 IS 10% OF WHAT"; "5  is  10%  of  what  "; "5 is 10% of what #what"].
-Proof. repeat split; agree_tac. Qed.
+Proof. conjs; agree_tac. Qed.
 
 Example pipeline_money :
   agree "en" "10 usd" ["10 USD"; "10 Usd"; "10    usd"; " 10 usd # usd"; "10 uSD  "] /\
@@ -972,7 +973,7 @@ Example pipeline_money :
   agree "en" "10 usd + 5 eur" ["10 USD + 5 EUR"; "10 usd+5 eur"; "10  usd  +  5  euro"; "10 usd + 5 eur #+"] /\
   agree "en" "$10 + 5%" ["$10  +  5%"; " $10 + 5% "; "$10 + 5% # $5"] /\
   agree "en" "10 euro as usd" ["10 EURO AS USD"; "10 Euro  As  Usd"; "10 euro as usd # euro"].
-Proof. repeat split; agree_tac. Qed.
+Proof. conjs; agree_tac. Qed.
 
 Example pipeline_dates :
   agree "en" "3 march 2020" ["3 MARCH 2020"; "3 March 2020"; "3   mArCh   2020"; "3 march 2020 # march 2020"; "  3 march 2020  ";
@@ -985,7 +986,7 @@ Example pipeline_dates :
   agree "en" "1 jan 2020 to 5 feb 2020" ["1 JAN 2020 TO 5 FEB 2020"; "1 Jan 2020   To   5 Feb 2020"; "1 jan 2020 to 5 feb 2020 # to"] /\
   agree "en" "5 march 2020 at 12:30" ["5 MARCH 2020 AT 12:30"; "5 march 2020   At   12:30"; "5 march 2020 at 12:30 # at"] /\
   agree "en" "17 jul" ["17 JUL"; "17   Jul"; "17 jul # 2020"; "  17 jul"].
-Proof. repeat split; agree_tac. Qed.
+Proof. conjs; agree_tac. Qed.
 
 Example pipeline_times :
   agree "en" "12:30 est" ["12:30 EST"; "12:30 Est"; "12:30    eSt"; "12:30 est # gmt"; " 12:30 est "] /\
@@ -997,7 +998,7 @@ Example pipeline_times :
   agree "en" "1600000000 to date" ["1600000000 TO DATE"; "1600000000   To   Date"; "1600000000 to date # date"] /\
   agree "en" "1600000000 to est" ["1600000000 TO EST"; "1600000000 to Est"; "1600000000  to  est  "] /\
   agree "en" "12:30 est to unix" ["12:30 EST TO UNIX"; "12:30 est  To  Unix"; "12:30 est to unix # unix"].
-Proof. repeat split; agree_tac. Qed.
+Proof. conjs; agree_tac. Qed.
 
 Example pipeline_durations_units :
   agree "en" "1 hour 5 minutes" ["1  hour   5  minutes"; "  1 hour 5 minutes  "; "1 hour 5 minutes # 2 hours"] /\
@@ -1006,7 +1007,7 @@ Example pipeline_durations_units :
   agree "en" "10 km to m" ["10 km TO m"; "10 km   To   m"; "10  km  to  m"; "10 km to m # cm"; "10 km INTO m"] /\
   agree "en" "5 kb to mb" ["5 kb TO mb"; "5   kb   to   mb  "; "5 kb to mb#gb"] /\
   agree "en" "10 km + 5 m" ["10 km  +  5 m"; "10 km+5 m"; " 10 km + 5 m # m"].
-Proof. repeat split; agree_tac. Qed.
+Proof. conjs; agree_tac. Qed.
 
 Example pipeline_variables :
   agree "en" "x = 3
@@ -1035,7 +1036,7 @@ Price To Gmt"; "price=12:30 est
 d + 2 days" ["d = 3 MARCH 2020
 D + 2 days"; "d  =  3  march  2020   # march
 d+2 days"].
-Proof. repeat split; agree_tac. Qed.
+Proof. conjs; agree_tac. Qed.
 
 Example pipeline_tr :
   agree "tr" "10 usd try" ["10 USD TRY"; "10   Usd   Try"; "10 usd try # try"] /\
@@ -1043,7 +1044,7 @@ Example pipeline_tr :
   agree "tr" "5 mart 2020 + 3 hafta" ["5 MART 2020 + 3 hafta"; "5 mart 2020+3 hafta"; "5  mart  2020  +  3  hafta # ay"] /\
   agree "tr" "3 kere 4" ["3 KERE 4"; "3   Kere   4"; "3 kere 4 # kere"] /\
   agree "tr" "50 + 10%" ["50+10%"; "  50  +  10%  # 5"].
-Proof. repeat split; agree_tac. Qed.
+Proof. conjs; agree_tac. Qed.
 
 (* known findings C16-K1 / C16-K2: a sign written directly in front of a digit is read into the literal *)
 Example sign_in_literal_refuted :
@@ -1055,7 +1056,7 @@ Example sign_in_literal_refuted :
   (* ... while for the other operand kinds a + (-b) = a - b *)
   agree "en" "12 jul 1997-5 days" ["12 jul 1997 - 5 days"] /\ agree "en" "10 usd-5 usd" ["10 usd - 5 usd"] /\
   agree "en" "12:30-2 hours" ["12:30 - 2 hours"] /\ agree "en" "8-2*3" ["8 - 2 * 3"].
-Proof. repeat split; try agree_tac; vm_compute; try reflexivity; discriminate. Qed.
+Proof. cbn [agree]; conjs; vm_compute; try reflexivity; discriminate. Qed.
 
 (* what the statement does NOT promise (no finding): words outside the listed classes are compared as written *)
 Example unlisted_classes_case_sensitive :
@@ -1065,4 +1066,4 @@ Example unlisted_classes_case_sensitive :
   values "en" "Today" <> values "en" "today" /\
   (* a blank inside a literal is not a blank between tokens *)
   values "en" "3  pm" <> values "en" "3 pm".
-Proof. repeat split; vm_compute; discriminate. Qed.
+Proof. conjs; vm_compute; discriminate. Qed.
